@@ -175,8 +175,8 @@ type c04FreshSet struct {
 type c04BufSink struct{ b *bytes.Buffer }
 
 func (s c04BufSink) Write(p []byte) (int, error) { return s.b.Write(p) }
-func (c04BufSink) Sync() error                    { return nil }
-func (c04BufSink) Close() error                   { return nil }
+func (c04BufSink) Sync() error                   { return nil }
+func (c04BufSink) Close() error                  { return nil }
 
 var (
 	c04Fresh = map[string]*c04FreshSet{} // guarded by c04RegMu
@@ -399,101 +399,101 @@ func c04Build(cfg *c04Cfg, oracle bool) *c04World {
 	}
 	nB := cfg.nBranches()
 	buildCores := func(k int) []zapcore.Core {
-	var cores []zapcore.Core
-	for b, br := range cfg.Br {
-		eb := b
-		if !cfg.Share {
-			eb = k*nB + b
+		var cores []zapcore.Core
+		for b, br := range cfg.Br {
+			eb := b
+			if !cfg.Share {
+				eb = k*nB + b
+			}
+			enc := c04Encoder(br.Enc)
+			var ws zapcore.WriteSyncer
+			if oracle {
+				buf := &bytes.Buffer{}
+				w.oracleBuf = append(w.oracleBuf, buf)
+				ws = zapcore.AddSync(buf)
+			} else {
+				newRec := func(gosched int) (*c04Rec, string) {
+					rec, name := c04NewRec(gosched, cfg.SafeRec)
+					rec.syncErr = cfg.SyncErr
+					rec.atLogSync = -1
+					w.recNames = append(w.recNames, name)
+					return rec, name
+				}
+				add := func(rec *c04Rec, file, mode string, twin int) {
+					w.sinks = append(w.sinks, &c04SinkRef{b: eb, j: len(w.sinks), rec: rec, file: file, mode: mode, twin: twin})
+				}
+				open := func(paths ...string) zapcore.WriteSyncer {
+					o, closeAll, err := zap.Open(paths...)
+					must(err)
+					w.closers = append(w.closers, closeAll)
+					return o
+				}
+				newBws := func(under zapcore.WriteSyncer) zapcore.WriteSyncer {
+					clk := &c04Clock{ch: make(chan time.Time, 1)}
+					s := &zapcore.BufferedWriteSyncer{WS: under, Size: br.Size, FlushInterval: time.Hour, Clock: clk}
+					w.bws = append(w.bws, s)
+					w.clocks = append(w.clocks, clk)
+					return s
+				}
+				switch br.Sink {
+				case "reopen":
+					var rec *c04Rec
+					ws, rec = reopen(func(url string) zapcore.WriteSyncer { return open(url) })
+					add(rec, "", "lines", -1)
+				case "open":
+					rec, name := newRec(cfg.Gosched)
+					add(rec, "", "lines", -1)
+					ws = open("c04rec://" + name)
+				case "openfile":
+					f := c04TempFile()
+					add(nil, f, "stream", -1)
+					ws = open(f)
+				case "open2":
+					f := c04TempFile()
+					rec, name := newRec(cfg.Gosched)
+					add(nil, f, "stream", -1)
+					add(rec, "", "lines", -1)
+					ws = open(f, "c04rec://"+name)
+				case "combine":
+					r1, _ := newRec(cfg.Gosched)
+					r2, _ := newRec(0)
+					add(r1, "", "lines", -1)
+					add(r2, "", "lines", len(w.sinks)-1)
+					ws = zap.CombineWriteSyncers(r1, r2)
+				case "bws":
+					rec, _ := newRec(cfg.Gosched)
+					add(rec, "", "calls", -1)
+					ws = newBws(rec)
+				case "bwslock":
+					rec, _ := newRec(cfg.Gosched)
+					add(rec, "", "calls", -1)
+					ws = newBws(zapcore.Lock(rec))
+				case "bwsopen":
+					rec, name := newRec(cfg.Gosched)
+					add(rec, "", "calls", -1)
+					ws = newBws(open("c04rec://" + name))
+				default: // "lock"
+					rec, _ := newRec(cfg.Gosched)
+					add(rec, "", "lines", -1)
+					ws = zapcore.Lock(rec)
+				}
+			}
+			cores = append(cores, zapcore.NewCore(enc, ws, zapcore.Level(br.Min)))
 		}
-		enc := c04Encoder(br.Enc)
-		var ws zapcore.WriteSyncer
-		if oracle {
-			buf := &bytes.Buffer{}
-			w.oracleBuf = append(w.oracleBuf, buf)
-			ws = zapcore.AddSync(buf)
-		} else {
-			newRec := func(gosched int) (*c04Rec, string) {
-				rec, name := c04NewRec(gosched, cfg.SafeRec)
-				rec.syncErr = cfg.SyncErr
-				rec.atLogSync = -1
-				w.recNames = append(w.recNames, name)
-				return rec, name
-			}
-			add := func(rec *c04Rec, file, mode string, twin int) {
-				w.sinks = append(w.sinks, &c04SinkRef{b: eb, j: len(w.sinks), rec: rec, file: file, mode: mode, twin: twin})
-			}
-			open := func(paths ...string) zapcore.WriteSyncer {
-				o, closeAll, err := zap.Open(paths...)
-				must(err)
-				w.closers = append(w.closers, closeAll)
-				return o
-			}
-			newBws := func(under zapcore.WriteSyncer) zapcore.WriteSyncer {
-				clk := &c04Clock{ch: make(chan time.Time, 1)}
-				s := &zapcore.BufferedWriteSyncer{WS: under, Size: br.Size, FlushInterval: time.Hour, Clock: clk}
-				w.bws = append(w.bws, s)
-				w.clocks = append(w.clocks, clk)
-				return s
-			}
-			switch br.Sink {
-			case "reopen":
-				var rec *c04Rec
-				ws, rec = reopen(func(url string) zapcore.WriteSyncer { return open(url) })
-				add(rec, "", "lines", -1)
-			case "open":
-				rec, name := newRec(cfg.Gosched)
-				add(rec, "", "lines", -1)
-				ws = open("c04rec://" + name)
-			case "openfile":
-				f := c04TempFile()
-				add(nil, f, "stream", -1)
-				ws = open(f)
-			case "open2":
-				f := c04TempFile()
-				rec, name := newRec(cfg.Gosched)
-				add(nil, f, "stream", -1)
-				add(rec, "", "lines", -1)
-				ws = open(f, "c04rec://"+name)
-			case "combine":
-				r1, _ := newRec(cfg.Gosched)
-				r2, _ := newRec(0)
-				add(r1, "", "lines", -1)
-				add(r2, "", "lines", len(w.sinks)-1)
-				ws = zap.CombineWriteSyncers(r1, r2)
-			case "bws":
-				rec, _ := newRec(cfg.Gosched)
-				add(rec, "", "calls", -1)
-				ws = newBws(rec)
-			case "bwslock":
-				rec, _ := newRec(cfg.Gosched)
-				add(rec, "", "calls", -1)
-				ws = newBws(zapcore.Lock(rec))
-			case "bwsopen":
-				rec, name := newRec(cfg.Gosched)
-				add(rec, "", "calls", -1)
-				ws = newBws(open("c04rec://" + name))
-			default: // "lock"
-				rec, _ := newRec(cfg.Gosched)
-				add(rec, "", "lines", -1)
-				ws = zapcore.Lock(rec)
-			}
+		if !oracle {
+			cores = append(cores, w.seen)
 		}
-		cores = append(cores, zapcore.NewCore(enc, ws, zapcore.Level(br.Min)))
-	}
-	if !oracle {
-		cores = append(cores, w.seen)
-	}
-	// optional outputs that are switched off
-	for _, at := range cfg.Nops {
-		if at < 0 {
-			at = 0
+		// optional outputs that are switched off
+		for _, at := range cfg.Nops {
+			if at < 0 {
+				at = 0
+			}
+			if at > len(cores) {
+				at = len(cores)
+			}
+			cores = append(cores[:at:at], append([]zapcore.Core{zapcore.NewNopCore()}, cores[at:]...)...)
 		}
-		if at > len(cores) {
-			at = len(cores)
-		}
-		cores = append(cores[:at:at], append([]zapcore.Core{zapcore.NewNopCore()}, cores[at:]...)...)
-	}
-	return cores
+		return cores
 	}
 	wrap := func(core zapcore.Core) zapcore.Core {
 		if cfg.Sampler && !oracle {
